@@ -12,17 +12,17 @@ CLAIMED = {
   note="Assumes: chunk rotation cut (the split decision is a ghost flag; its effect is checked in C11), default cache limits (no eviction), pre-state characterisation of reachable states written in kani_support/model.rs (a too-weak characterisation could only cause a false alarm, a too-strong one hides states), BTreeMap replaced by a 4-slot sorted array, ghost file system; not covered: more than 3 live entries, multi-entry append calls, read_buffer_size, closed-chunk reads (C07).",
   tech=TECH + "differential harness against a reference model, inductive step over symbolic pre-states", ref="C01"),
  "C04": dict(
-  text="Unit-level obligation behind acknowledgement soundness, decided for all values within the bounds: the real FlushWorker::sync_all_files over 1..3 tracked files with fdatasync failing at up to two symbolic positions returns Ok only if every tracked file was successfully synced after its last write, never forgets a file whose sync has not succeeded (the defect fixed in /repo 'fix:' commit), keeps the open file tracked, and moves the eviction boundary only after all older files are synced.",
-  note="NOT covered: FlushWorker::run_inner (batching, write_all, callback dispatch and order, exactly-once) and caller/worker interleavings - symbolic execution of the worker loop did not terminate in any of the encodings tried (DESIGN.md C04). The claim relies on reading that run_inner sends Ok to a batch's callbacks iff sync_all_files returned Ok. Trusted: fdatasync contract, ghost file system stubs.",
-  tech=TECH + "unit harness with symbolic I/O fault injection through environment stubs", ref="C04"),
+  text="Decided by the SAT solver for all values within the bounds, on the real worker loop FlushWorker::run_inner (with sync_all_files, handle_non_flush_request): for each request script shape from the caller's grammar (flush -> Write[,RemoveChunks]; rotation -> [tail Write,] AppendFile; shapes of 1..4 requests quick, 5 thorough) and EVERY batching schedule of that shape (which try_recv calls see the next request), with symbolic file head lengths/offsets and up to two write/fdatasync failures at symbolic positions: an Ok callback implies that every byte journalled at or before that flush is written and covered by a successful sync of its file (ghost truth, not the worker's bookkeeping); callbacks fire at most once and in request order; without a failure every callback fires exactly once with Ok and the whole script is consumed. Plus the unit harnesses of sync_all_files over 1..3 tracked files (never forgets a file whose sync has not succeeded - the defect fixed in /repo 6ae0d32).",
+  note="Sequentialised model: the caller's requests are built at the moment the worker receives them (ghost channel script mode), batching is an enumerated bit mask, data lengths are concrete (0,1,2), I/O goes to a ghost file system whose write/sync may fail symbolically; Vec::with_capacity is stubbed to Vec::new (run_inner pre-allocates 1024 slots). Not covered: real thread interleavings inside a caller operation (argued on paper: the worker shares only the channel, the cache boundary and done_seq with the caller), scripts longer than 5 requests, short writes, that the caller emits exactly this grammar (checked for purge/flush/rotation in C08/C11 harnesses).",
+  tech=TECH + "the worker loop run on scripted requests with enumerated batching schedules and symbolic I/O fault injection; ghost-truth monitors inside the callback and unlink stubs", ref="C04"),
  "C06": dict(
   text="Decided for all values within the bounds: from every reachable in-memory state with at most two live entries, a vote / append / commit / truncate whose arguments the sequential specification rejects returns Err and leaves the log state, live index, cache statistics and content, journal buffer, record offsets and worker queue exactly as before (so flush + restart replays an unchanged journal).",
   note="Assumes the same pre-state characterisation and cuts as C01. The restart half of the statement is by composition with the unchanged journal (not encoded: RaftLog::open replay). One-entry append calls only.",
   tech=TECH + "inductive step with before/after state comparison", ref="C06"),
  "C08": dict(
-  text="Decided for all values within the bounds: (b) real RaftLog::purge + flush over a store with two closed chunks and symbolic closing states / purge point: exactly the oldest chunks whose last id is at or below the purge point are scheduled, oldest first, nothing is handed to the worker or unlinked by purge itself (also when the purge record fills the chunk and rotation happens inside purge), and flush queues the synced Write before RemoveChunks; (c) real handle_non_flush_request(RemoveChunks) unlinks the listed files in list order, all of them, nothing else.",
-  note="NOT covered: run_inner's handling of RemoveChunks after a failed sync of the same batch (worker loop out of reach; recorded as known finding KF-C08 by code reading), crash points between unlinks, completeness after worker idle. Trusted: ghost file system, unlink contract.",
-  tech=TECH + "store-level step harness with injected closed chunks + worker-handler unit harness", ref="C08"),
+  text="Decided for all values within the bounds: (a) on the real worker loop run_inner, for scripts with a RemoveChunks request (3..5 requests, every batching schedule, up to two symbolic write/fdatasync failures): at every unlink the Write queued before the RemoveChunks (it carries the purge record) is written and successfully synced, and unlinks are oldest-first (the unlink-after-failed-sync defect fixed in /repo 906260e was found here); (b) real RaftLog::purge + flush over a store with two closed chunks and symbolic closing states / purge point: exactly the oldest chunks whose last id is at or below the purge point are scheduled, oldest first, nothing is handed to the worker or unlinked by purge itself (also when the purge record fills the chunk and a rotation happens inside purge), and flush queues the synced Write before RemoveChunks; (c) real handle_non_flush_request(RemoveChunks) unlinks the listed files in list order, all of them, nothing else.",
+  note="Not covered: crash points between unlinks (the oldest-first order is what makes every crash image a gap-free suffix), completeness over whole histories ('once flushed and idle every obsolete chunk is gone' is checked for one purge step), real thread interleavings. Trusted: ghost file system, unlink contract, the sequentialised worker model of C04.",
+  tech=TECH + "worker loop on scripted requests with ghost-truth unlink monitor + store-level purge/flush step harness + handler unit harness", ref="C08"),
  "C09": dict(
   text="Lemmas decided for all values within the bounds: (L1) the real WALRecord decoder reports UnexpectedEof only when the input is exhausted, for arbitrary content of full-length Commit/Vote frames and for unknown record types (so damage inside a complete record is never taken for a torn tail by the decoder itself); (L2) Chunk::handle_record_error classifies a non-EOF, non-zero tail as an error for every tail content.",
   note="NOT covered: the assembly in Chunk::open / RaftLog::open (BufReader path out of reach), flips that change a length/Option tag so that the decoder legitimately runs to end of file (pre-existing weakness, known finding KF-C09 by reading), missing middle chunk, 'other files untouched'. This is a partial, unit-level claim.",
